@@ -91,6 +91,12 @@ BAD_REFS = {
     "body_dangling": lambda: ("requestBody", {"$ref": "#/components/requestBodies/NoSuchBodyZq"}),
     "body_remote_same_name": lambda: ("requestBody", {"$ref": "https://example.invalid/x.yaml#/components/requestBodies/ZqGoodBody"}),
     "body_wrong_section_same_name": lambda: ("requestBody", {"$ref": "#/components/schemas/ZqGoodBody"}),
+    # the malformed reference is a later hop of a chain of request-body references; a local body of the same name exists
+    "body_chain_remote_same_name": lambda: ("requestBody", {"$ref": "#/components/requestBodies/ZqChainRemote"}),
+    "body_chain_wrong_section_same_name": lambda: ("requestBody", {"$ref": "#/components/requestBodies/ZqChainWrongSection"}),
+    "body_chain_dangling": lambda: ("requestBody", {"$ref": "#/components/requestBodies/ZqChainDangling"}),
+    "body_chain3_remote_same_name": lambda: ("requestBody", {"$ref": "#/components/requestBodies/ZqChain3"}),
+    "body_chain_into_cycle": lambda: ("requestBody", {"$ref": "#/components/requestBodies/ZqIntoLoop"}),
     "body_circular": lambda: ("requestBody", {"$ref": "#/components/requestBodies/ZqLoopA"}),
     "response_dangling": lambda: ("responses", {"200": {"$ref": "#/components/responses/NoSuchRespZq"}}),
     "response_remote": lambda: ("responses", {"200": {"$ref": "https://example.invalid/x.yaml#/components/responses/ZqGoodResp"}}),
@@ -113,6 +119,11 @@ def with_bad_ref(doc: dict, kind: str, n: int):
     comp.setdefault("requestBodies", {})["ZqGoodBody"] = {"content": {"application/json": {"schema": {"type": "string"}}}}
     comp["requestBodies"]["ZqLoopA"] = {"$ref": "#/components/requestBodies/ZqLoopB"}
     comp["requestBodies"]["ZqLoopB"] = {"$ref": "#/components/requestBodies/ZqLoopA"}
+    comp["requestBodies"]["ZqChainRemote"] = {"$ref": "https://example.invalid/x.yaml#/components/requestBodies/ZqGoodBody"}
+    comp["requestBodies"]["ZqChainWrongSection"] = {"$ref": "#/components/schemas/ZqGoodBody"}
+    comp["requestBodies"]["ZqChainDangling"] = {"$ref": "#/components/requestBodies/NoSuchBodyZq"}
+    comp["requestBodies"]["ZqChain3"] = {"$ref": "#/components/requestBodies/ZqChainRemote"}
+    comp["requestBodies"]["ZqIntoLoop"] = {"$ref": "#/components/requestBodies/ZqLoopA"}
     comp.setdefault("responses", {})["ZqGoodResp"] = {"description": "good", "content": {"application/json": {"schema": {"type": "string"}}}}
     comp["responses"]["ZqRespAlias"] = {"$ref": "#/components/responses/ZqGoodResp"}
     base = copy.deepcopy(d)  # the same helper components, without the using operation
